@@ -19,7 +19,8 @@ ID = "C05"
 LEVEL = "exploration"
 RULE = ("hand-written phases of 1-12 statements of all kinds (Assign with 0-2 loops with constant and symbolic "
         "bounds, AssignFunctionCall, YieldState, FailStep, SwitchPhase, Raise, Nop), random acyclic dependencies, "
-        "guards from {True, flag, not flag, not not flag, and(flag, flag'), and(flag, not flag')} over <=4 flags; "
+        "guards from {True, flag, not flag, not not flag, and(flag, flag'), and(flag, not flag')} over <=4 flags, "
+        "and comparisons / negated comparisons of a numeric variable with a constant (valuations 0.5, 1, 2, NaN); "
         "each phase is lowered by the real create_ast_from_phase and walked under ALL 2^k flag valuations; "
         "re-lowered from permuted lists, tuples, frozensets and under other PYTHONHASHSEEDs; and pushed through "
         "StructuredCodeGenerator.lower_node with a recording subclass. distinct = canonical JSON of the phase; "
@@ -56,8 +57,17 @@ def plan(tier, seed):
 FLAGS = ["<cond>a", "<cond>b", "<cond>c", "<cond>d"]
 
 
+NUMVARS = ["<state>err", "<p>tol"]
+NUMVALS = [0.5, 1.0, 2.0, float("nan")]
+
+
 def gen_guard(rng, flags):
     r = rng.random()
+    if rng.random() < 0.15:
+        # a comparison as guard (hand-written phases may carry any condition), plain or negated; its operands may
+        # be NaN at run time: 'not (err < 1)' holds then, 'err >= 1' does not
+        c = ["cmp", rng.choice(["<", "<=", ">", ">=", "==", "!="]), rng.choice(NUMVARS), 1.0]
+        return c if rng.random() < 0.5 else ["not", c]
     if r < 0.3 or not flags:
         return True
     f = rng.choice(flags)
@@ -110,6 +120,9 @@ def pym_guard(g):
         return True
     if g[0] == "f":
         return var(g[1])
+    if g[0] == "cmp":
+        from pymbolic.primitives import Comparison
+        return Comparison(var(g[2]), g[1], g[3])
     if g[0] == "not":
         return LogicalNot(pym_guard(g[1]))
     return LogicalAnd(tuple(pym_guard(x) for x in g[1:]))
@@ -120,6 +133,11 @@ def ev_guard(g, val):
         return True
     if g[0] == "f":
         return val[g[1]]
+    if g[0] == "cmp":
+        import operator
+        op = {"<": operator.lt, "<=": operator.le, ">": operator.gt, ">=": operator.ge, "==": operator.eq,
+              "!=": operator.ne}[g[1]]
+        return bool(op(val[g[2]], g[3]))
     if g[0] == "not":
         return not ev_guard(g[1], val)
     return all(ev_guard(x, val) for x in g[1:])
@@ -167,6 +185,13 @@ def make_dag(desc, order=None, container="list"):
     return DAGCode({"main": ExecutionPhase("main", "main", cont(stmts))}, "main")
 
 
+def valuations(flags):
+    """All valuations: truth values for flags, a few numbers (NaN included) for numeric guard variables."""
+    doms = [NUMVALS if f in NUMVARS else [False, True] for f in flags]
+    for combo in itertools.product(*doms):
+        yield dict(zip(flags, combo))
+
+
 def flags_in(desc):
     out = set()
 
@@ -175,6 +200,8 @@ def flags_in(desc):
             return
         if g[0] == "f":
             out.add(g[1])
+        elif g[0] == "cmp":
+            out.add(g[2])
         else:
             for x in g[1:]:
                 rec_(x)
@@ -288,8 +315,7 @@ def check_phase(desc, rec, rng, nperm=4):
         reach(d["id"])
     flags = flags_in(desc)
     base_show = show(tree)
-    for bits in itertools.product([False, True], repeat=len(flags)):
-        val = dict(zip(flags, bits))
+    for val in valuations(flags):
         try:
             tr = leaf_trace(tree, val)
         except Exception as ex:
@@ -349,8 +375,7 @@ def check_phase(desc, rec, rng, nperm=4):
     r = Recorder()
     try:
         r.lower_ast(tree)
-        for bits in itertools.product([False, True], repeat=len(flags)):
-            val = dict(zip(flags, bits))
+        for val in valuations(flags):
             a = run_stream(r.stream, val)
             b = leaf_trace(tree, val)
             if [str(x) for x in a] != [str(x) for x in b]:
